@@ -1,6 +1,7 @@
 package main
 
 import (
+	"fmt"
 	"go/ast"
 	"go/token"
 	"go/types"
@@ -38,11 +39,13 @@ func (x *Unit) recvEnabled(st *State, ch Val) (T, bool) {
 	timerCase := Cmp(">=", now.T, Select(x.u.MapVal(dl.T), x.uf("chtimer", SInt, ch.T)))
 	free := x.fresh("ready", SBool)
 	en := Ite(Eq(kind, IntLit(1)), doneCase, Ite(Eq(kind, IntLit(2)), timerCase, free))
-	return x.define("enabled", en), true
+	// a nil channel is never ready
+	return x.define("enabled", And(Not(Eq(ch.T, IntLit(0))), en)), true
 }
 
 func (x *Unit) sendEnabled(st *State, ch Val) (T, bool) {
-	return x.fresh("sendready", SBool), true
+	now := x.ghostGet(st, "now")
+	return And(Not(Eq(ch.T, IntLit(0))), x.uf("chan_sendready", SBool, ch.T, now.T)), true
 }
 
 func (x *Unit) recvValue(st *State, ch Val, et types.Type) (Val, Val) {
@@ -53,6 +56,17 @@ func (x *Unit) recvValue(st *State, ch Val, et types.Type) (Val, Val) {
 	x.assume(st, Imp(Not(ok.T), Eq(v.T, x.zero(et).T)))
 	x.chanHook(st, "recv", ch, &v, &ok)
 	return v, ok
+}
+
+// recordRecv remembers the latest values received from the channel expression text: result_of(<-ch, i).
+func (x *Unit) recordRecv(st *State, che ast.Expr, v, ok Val) {
+	for i, r := range []Val{v, ok} {
+		k := fmt.Sprintf("res:<-%s:%d", x.srcOf(che), i)
+		if _, have := x.entry.ghost[k]; !have {
+			x.entry.ghost[k] = Val{x.fresh("res0", r.Sort), r.Typ}
+		}
+		st.ghost[k] = r
+	}
 }
 
 func (x *Unit) chanRecv(st *State, che ast.Expr, n int, node ast.Node) []Val {
@@ -66,6 +80,7 @@ func (x *Unit) chanRecv(st *State, che ast.Expr, n int, node ast.Node) []Val {
 		et = ct.Elem()
 	}
 	v, ok := x.recvValue(st, ch, et)
+	x.recordRecv(st, che, v, ok)
 	if n == 2 {
 		return []Val{v, ok}
 	}
@@ -273,7 +288,9 @@ func (x *Unit) libCall(st *State, pc *preparedCall, name string, n int) ([]Val, 
 		x.assume(st, Imp(Eq(IfaceTyp(in), IntLit(0)), Eq(e, IfaceNil)))
 		return one(e, rt(0))
 	case "github.com/pkg/errors.Cause":
-		return one(x.uf("errcause", SIface, args[0].T), rt(0))
+		r := x.uf("errcause", SIface, args[0].T)
+		x.assume(st, Eq(Eq(IfaceTyp(r), IntLit(0)), Eq(IfaceTyp(args[0].T), IntLit(0))))
+		return one(r, rt(0))
 	case "errors.Is", "github.com/pkg/errors.Is":
 		r := x.fresh("errIs", SBool)
 		x.assume(st, Imp(Eq(args[0].T, args[1].T), r))
